@@ -29,7 +29,7 @@ pub const TIME_RULE_VEC: [&str; 11] = [
 ];
 pub const DEFAULT_FMT: &str = "%Y-%m-%d %H:%M:%S.%f";
 pub const UNITS: &[&str] = &["s", "ms", "us", "ns"];
-pub const FNS: &[&str] = &["td_parse", "td_total", "dt_parse", "dt_total", "dt_rt", "time_parse", "time_total"];
+pub const FNS: &[&str] = &["td_parse", "td_total", "dt_parse", "dt_total", "dt_rt", "dt_rtl", "time_parse", "time_total"];
 
 pub fn enc(s: &str) -> String {
     if s.is_empty() { "[]".into() } else { s.chars().map(|c| (c as u32).to_string()).collect::<Vec<_>>().join(",") }
@@ -140,6 +140,24 @@ fn dt_rt(r: &Req) -> String {
     })
 }
 
+/// format with the listed rule, parse back through the format list (`parse(s, None)`, what `FromStr` does)
+fn dt_rtl(r: &Req) -> String {
+    let v = r.i64("v");
+    let fmt = fmt_of(r);
+    with_unit!(r.s("u"), U => {
+        let res = catch_unwind(AssertUnwindSafe(|| {
+            let x = DateTime::<U>::new(v);
+            let text = x.strftime(fmt.as_deref());
+            DateTime::<U>::parse(&text, None)
+        }));
+        match res {
+            Ok(Ok(x)) => format!("V:{}", x.0),
+            Ok(Err(e)) => err_tok(&e.to_string()),
+            Err(_) => "P".into(),
+        }
+    })
+}
+
 fn time(r: &Req, s: &str) -> String {
     let fmt = if r.has("f") { Some(dec(r.s("f"))) } else { None };
     let res = catch_unwind(AssertUnwindSafe(|| Time::parse(s, fmt.as_deref())));
@@ -163,6 +181,7 @@ pub fn run(r: &Req) -> Option<String> {
         "dt_parse" => Some(dt(r, &s)),
         "dt_total" => Some(total(dt(r, &s))),
         "dt_rt" => Some(dt_rt(r)),
+        "dt_rtl" => Some(dt_rtl(r)),
         "time_parse" => Some(time(r, &s)),
         "time_total" => Some(total(time(r, &s))),
         _ => None,
@@ -269,6 +288,10 @@ fn rt_line(out: &mut Vec<String>, u: &str, v: i64, f: Option<usize>) {
         Some(i) => i.to_string(),
     };
     out.push(format!("dt_rt u={} v={} f={} s={} {}", u, v, ftok, enc(&text), c));
+    if f.is_some() {
+        // the same text read back through the whole format list
+        out.push(format!("dt_rtl u={} v={} f={} s={} {}", u, v, ftok, enc(&text), chrono_fields(&text, None)));
+    }
 }
 
 fn time_lines(out: &mut Vec<String>, s: &str, fmt: Option<&str>) {
@@ -680,8 +703,12 @@ pub fn valid_case(r: &Req) -> bool {
         } else {
             Some(dec(r.s("f")))
         };
-        if r.f == "dt_rt" && chrono_format(r.s("u"), r.i64("v"), fmt.as_deref().unwrap_or(DEFAULT_FMT)).as_deref() != Some(s.as_str()) {
+        if (r.f == "dt_rt" || r.f == "dt_rtl") && chrono_format(r.s("u"), r.i64("v"), fmt.as_deref().unwrap_or(DEFAULT_FMT)).as_deref() != Some(s.as_str()) {
             return false;
+        }
+        if r.f == "dt_rtl" {
+            // formatted with the listed rule, read back through the whole list
+            return fmt.is_some() && chrono_fields(&s, None) == format!("cdt={} cd={}", r.s("cdt"), r.s("cd"));
         }
         return chrono_fields(&s, fmt.as_deref()) == format!("cdt={} cd={}", r.s("cdt"), r.s("cd"));
     }
